@@ -808,13 +808,22 @@ func LookupTerminfo(name string) (*Terminfo, error) {
 		addtruecolor = true
 	}
 
+	needrgb := addtruecolor &&
+		t.SetFgBgRGB == "" &&
+		t.SetFgRGB == "" &&
+		t.SetBgRGB == ""
+
+	if needrgb || add256color {
+		// amend a copy: the entry found is the registered one, which
+		// later lookups of the base name must find unchanged
+		nt := *t
+		t = &nt
+	}
+
 	// If the user has requested 24-bit color with $COLORTERM, then
 	// amend the value (unless already present).  This means we don't
 	// need to have a value present.
-	if addtruecolor &&
-		t.SetFgBgRGB == "" &&
-		t.SetFgRGB == "" &&
-		t.SetBgRGB == "" {
+	if needrgb {
 
 		// Supply vanilla ISO 8613-6:1994 24-bit color sequences.
 		t.SetFgRGB = "\x1b[38;2;%p1%d;%p2%d;%p3%dm"
